@@ -12,7 +12,7 @@ ASSUMPTIONS = SSM_ASSUMPTIONS + [
 ]
 NOT_DECIDED = [
     "the numeric time bound itself: each timeout strictly decreases the retry measure (retries left, segment retries left) and re-arms one timer, or ends the transaction -- the sum of the armed intervals is not computed",
-    "IOQController._trigger / request_io beyond ApplicationIOController.process_io (start of the next queued request runs through core.deferred, verified under C14)",
+    "IOCB timeouts (IOCB.set_timeout arms a task that calls abort: covered by the idempotence of abort_io / complete_io, the task itself is C14)",
     "an end-to-end run of two stacks over a faulty medium (whole-history composition is by the invariant argument, see assumptions)",
 ]
 EXPLANATION = ("A client transaction is a real ClientSSM object with symbolic fields, registered with a real StateMachineAccessPoint exactly when it is live. "
@@ -22,7 +22,8 @@ EXPLANATION = ("A client transaction is a real ClientSSM object with symbolic fi
                "invoke ID and peer) and none otherwise, emits nothing once terminal, and every timeout either ends the transaction with an abort or strictly "
                "decreases the retry measure while re-arming the timer (so silence ends in an abort after finitely many timeouts). On the IOCB side "
                "_app_complete gives the active request its one outcome, keeps queued requests reachable through queue_by_address and starts the next, and "
-               "process_io makes a submitted request active or queued in the reachable queue of its destination.")
+               "process_io makes a submitted request active or queued in the reachable queue of its destination; complete_io / abort_io give a request its outcome once and ignore "
+               "every later completion or abort; _trigger starts the first waiting request when the queue is idle and nothing otherwise.")
 LEVEL_TEXT = ("Proof per entry point for all field values (bounded only in window size for the sender-side units and in queue length for the IOCB units); "
               "unbounded histories by induction over the per-call contracts.")
 LEVEL_NOTE = ("Trusted: pyvc (cross-checked against CPython every run), z3/cvc5, the timer summaries (C14), the induction step composing per-call "
